@@ -32,6 +32,11 @@ CHECKS = {
             "Every mutating call of every generated history is a test point: digests of all stored nodes, types and the project header may differ only for the target, the child/property-group parts of affected parents, created/deleted nodes and appearing/disappearing types. Open/read-everything/close must change nothing (bytes too in mode r).",
             "Digest granularity: attrs / datasets / children / type / property groups / concatenated blocks per node; HDF5 housekeeping in r+ mode is not compared.",
             "DESIGN.md 3/C09"),
+    "C03": ("values", "exploration",
+            "exhaustive enumeration of reflectively discovered (class, settable attribute) pairs + Hypothesis multi-assignment orders; round-trip oracle (getter after assign, getter after re-open, live-vs-file snapshot)",
+            "The (class, attribute) pair dimension is finite and enumerated completely on every run (566 pairs: every object/group/data class, data/object/group types, workspace header); values and assignment orders are sampled. Each accepted assignment must be what a fresh reader of the closed file sees, and all other attributes must agree between memory and file.",
+            "Value domains come from a table keyed by attribute name (vp/engines/values.py::make_value); pairs without a domain and pairs whose setter rejects the value are listed in the evidence, not claimed.",
+            "DESIGN.md 3/C03"),
 }
 
 NOT_APPLICABLE = {}
@@ -76,6 +81,8 @@ def main():
         "engines": [
             {"name": "tree", "path": "vp/engines/tree.py", "serves_properties": ["C01", "C02", "C05", "C06", "C09", "C12"],
              "kind_free_text": "Hypothesis strategy for operation programs + interpreter with reference model over groups/objects/data/property groups"},
+            {"name": "values", "path": "vp/engines/values.py", "serves_properties": ["C03", "C08"],
+             "kind_free_text": "reflective pair discovery, value domains, reference codec for data values"},
         ],
         "checks": checks,
         "notes": "All checks are property-based: Hypothesis generates programs (plain JSON), an interpreter runs them against geoh5py imported from /repo and an explicit oracle; failures are shrunk with ddmin to replay files under /verif/replays/<id>/. Known findings: /verif/known_findings.json.",
